@@ -492,7 +492,11 @@ impl<'a> Sess<'a> {
             if !ra::is_event_group(h.g) {
                 // static data in a solicited response although the request being answered (the READ sent last, which
                 // supersedes every earlier one) asked for none: left-overs of a superseded or abandoned READ
-                if !unsol && !self.static_wanted && matches!(h.g, 1 | 3 | 10 | 20 | 21 | 30 | 40 | 110) && !h.objects.is_empty() {
+                if !unsol
+                    && !self.static_wanted
+                    && matches!(h.g, 1 | 3 | 10 | 20 | 21 | 30 | 40 | 110)
+                    && !h.objects.is_empty()
+                {
                     self.fail14(
                         "U7-response-carries-objects-nobody-asked-for",
                         format!("fragment #{no} (solicited) carries {} objects of g{}v{} although the request it answers asks for no static data", h.objects.len(), h.g, h.v),
